@@ -24,9 +24,53 @@ affect the exit code.  Exit 1 on a model/real disagreement.
 Samples: literal first arguments of `ClassName("...")` calls in /repo/src/fparser/two/tests
 (`ast`, with `tcls = ClassName` aliases resolved), plus `(type(node).__name__, str(node))` for
 every node of the trees of `--n` generated programs (`fv.gen.gen_program`), plus layout variants
-of those (blank padding, case).
+(blank padding, case, blanks around punctuation), mutants (a character dropped / inserted /
+doubled: brackets, quotes, separators, placeholder-looking text, exponent constants) and
+cross-feeding between classes of the same base.
+
+Run time is bounded and reproducible:
+
+* every sample obeys `admissible` (length <= 120, bracket depth <= 3, <= 6 groups): the real
+  matchers are exponential in the nesting depth (C20) and each sample is matched several times;
+* every sample runs under a 2 s limit (`--case-seconds`) enforced by SIGALRM raising
+  `CaseTimeout`, a BaseException (fparser and this file have `except Exception` clauses that would
+  swallow an ordinary exception) with the timer re-armed every second; a sample over the limit is
+  logged (`TIMEOUT (sample skipped) Class('text')`) and skipped - it is neither agreement nor
+  disagreement;
+* `--max-seconds S` (default 25 + 0.5*n) is a wall-clock budget: generating/parsing programs may
+  use 40 % of it, and when it is used up sampling STOPS (reported, not a failure); the work list is
+  shuffled deterministically so that what was done is a uniform subset of the classes;
+* per class at most 40 + n samples (20 + n/2 for the classes that only get the leaf oracle), so
+  the time is roughly linear in n;
+* `--classes-per-base K`: a quick tier with K generic classes per base (+ 10*K leaf-only classes);
+* every set is sorted before it is iterated: the result depends on (seed, n, the working trees of
+  /repo and fv/gen.py) only, not on PYTHONHASHSEED (checked: identical counts for hash seeds 0, 1,
+  12345).
+  Measured (seed 0, three runs each): n=40 12.3 / 13.0 / 13.2 s (13 563 samples);
+  n=300 52.5 / 51.0 / 51.5 s (38 350 samples); --n 40 --classes-per-base 2: 4 s.
+
+What used to hang (found with `faulthandler`): the mutant
+`Section_Subscript_List('bar(Fld(2 - n *F2PY_EXPR_TUPLE_1 1 - 0), betaX)')` - placeholder-looking
+text INSIDE a bracket group collides with the key `string_replace_map` gives to that very group, so
+`repmap` re-inserts the group into itself at every level of the recursive descent and the real
+matcher runs for minutes and gigabytes (the foreign-placeholder defect of string_replace_map,
+outside the `Free` hypothesis of srm_roundtrip_partial).  The old guard raised an `Exception`
+subclass from a one-shot timer; this file's own `except Exception` in check_str / leaf_roundtrip
+swallowed it and the sample went on unguarded.  Such mutants are now generated at bracket depth 0
+only (the collision is kept, it is finite there), and the guard cannot be swallowed.
+
+NEGATIVE CONTROL (run at the start of EVERY invocation, < 0.1 s, `negative_control`; a failing
+control makes the exit code 1): on six fixed cases
+  (0) unmodified real code and driver                              -> 0/6 disagreements;
+  (1) the real `SequenceBase.match` monkeypatched in this process to drop the last element of
+      every list with more than one element                        -> 3/3 list cases reported
+      ("real made 3 child calls, model 2" / items differ);
+  (2) one driver answer flipped (the text of the last child slot gets an extra character,
+      `_FlippedModel`)                                             -> 6/6 cases reported.
+Observed on 2026-09-26 with the driver built from lean/ at that date: exactly those numbers.
 
     timeout 1800 /venv/bin/python -m fv.cosim_combi --seed 0 --n 300
+    timeout 300  /venv/bin/python -m fv.cosim_combi --seed 0 --n 40 [--classes-per-base 2]
 """
 import argparse
 import ast
@@ -54,7 +98,8 @@ TESTS = os.path.join(repo.REPO, "src", "fparser", "two", "tests")
 def harvest_tests(names):
     """{class name: set(strings)} from the repo's own tests"""
     out = collections.defaultdict(set)
-    for root, _, files in os.walk(TESTS):
+    for root, dirs, files in os.walk(TESTS):
+        dirs.sort()
         for f in sorted(files):
             if not f.endswith(".py"):
                 continue
@@ -90,35 +135,70 @@ def harvest_tests(names):
                             if a == cname and ln <= n.lineno:
                                 best = c
                         cname = best
-                    if cname in names:
+                    if cname in names and admissible(n.args[0].value):
                         out[cname].add(n.args[0].value)
     return out
 
 
-def harvest_generated(seed, n):
-    """{class name: set(strings)} from the trees of generated programs"""
+MAX_LEN = 120        # longest sample string
+MAX_DEPTH = 3         # deepest bracket nesting of a sample
+MAX_GROUPS = 6        # most bracket groups in a sample
+MAX_OPS = 10          # most operator-ish characters outside literals
+
+
+def admissible(s):
+    """Deterministic size limits on a sample.  The real expression / reference matchers are
+    exponential in the nesting depth (`f(g(h(..)))`, `( .. ) ** c + .y. b`: C20,
+    `parse_calls_not_polynomial`), and every sample is matched several times (class match,
+    leaf round trip, re-parse); beyond these limits single samples take minutes."""
+    if len(s) > MAX_LEN or "\n" in s:
+        return False
+    depth = best = groups = ops = 0
+    for ch in s:
+        if ch in "([":
+            depth += 1
+            groups += 1
+            best = max(best, depth)
+        elif ch in ")]":
+            depth = max(0, depth - 1)
+        elif ch in "+-*/%.<>=":
+            ops += 1
+    return best <= MAX_DEPTH and groups <= MAX_GROUPS and ops <= 3 * MAX_OPS
+
+
+def harvest_generated(seed, n, deadline=None):
+    """{class name: set(strings)} from the trees of generated programs; -> (samples, programs
+    parsed, programs skipped because generation+parse exceeded 5 s or the budget ran out)"""
     from fv import gen, real
+    import time
     out = collections.defaultdict(set)
-    parsed = 0
+    parsed = skipped = 0
     for i in range(n):
+        if deadline is not None and time.time() > deadline:
+            skipped += n - i
+            break
         try:
-            p = gen.gen_program(seed * 100003 + i, std="f2008")
-            src = p.text()
+            with time_limit(5.0):
+                p = gen.gen_program(seed * 100003 + i, std="f2008")
+                src = p.text()
+                o = real.try_parse(src, std="f2008")
+        except CaseTimeout:
+            skipped += 1
+            continue
         except Exception:  # noqa: BLE001
             continue
-        o = real.try_parse(src, std="f2008")
         if o.kind != "tree":
             continue
         parsed += 1
         for node in U.walk(o.tree):
             if isinstance(node, U.Base) and not isinstance(node, U.BlockBase):
                 try:
-                    s = str(node)
+                    t = str(node)
                 except Exception:  # noqa: BLE001
                     continue
-                if "\n" not in s and len(s) < 400:
-                    out[type(node).__name__].add(s)
-    return out, parsed
+                if admissible(t):
+                    out[type(node).__name__].add(t)
+    return out, parsed, skipped
 
 
 def variants(rng, s):
@@ -145,18 +225,31 @@ def mutants(rng, s, k=6):
             out.append(s[:i] + s[i + 1:])
         elif r < 0.85:
             i = rng.randrange(len(s) + 1)
-            out.append(s[:i] + rng.choice(ins) + s[i:])
+            what = rng.choice(ins)
+            if what.startswith("F2PY") and (s[:i].count("(") + s[:i].count("[")
+                                            > s[:i].count(")") + s[:i].count("]")):
+                # placeholder-looking text INSIDE a bracket group collides with the key of that
+                # very group: `repmap` then re-inserts the group into itself at every nesting
+                # level and the real matcher recurses for minutes (the known foreign-placeholder
+                # defect of string_replace_map, outside `Free`).  Keep the collision, but at
+                # bracket depth 0 where it is finite.
+                i = 0
+            out.append(s[:i] + what + s[i:])
         elif s:
             i = rng.randrange(len(s))
             out.append(s[:i] + s[i] + s[i:])
     return out
 
 
-class CaseTimeout(Exception):
-    """the real parser did not finish within CASE_SECONDS on one sample"""
+class CaseTimeout(BaseException):
+    """The real parser did not finish within the per-sample limit.  A BaseException on purpose:
+    fparser (`FortranReaderBase.next`, several `match` methods) and this harness have
+    `except Exception` clauses that would swallow an ordinary exception raised from the signal
+    handler; the timer is also RE-ARMED every second after the first expiry, so a swallowed or
+    badly timed delivery cannot leave the sample running."""
 
 
-CASE_SECONDS = 10
+CASE_SECONDS = 2.0
 
 
 def _alarm(signum, frame):
@@ -164,9 +257,14 @@ def _alarm(signum, frame):
 
 
 class time_limit:
+    """`with time_limit(seconds):` - CaseTimeout after `seconds`, then again every second"""
+
+    def __init__(self, seconds=None):
+        self.seconds = seconds or CASE_SECONDS
+
     def __enter__(self):
         self.old = signal.signal(signal.SIGALRM, _alarm)
-        signal.setitimer(signal.ITIMER_REAL, CASE_SECONDS)
+        signal.setitimer(signal.ITIMER_REAL, self.seconds, 1.0)
 
     def __exit__(self, *a):
         signal.setitimer(signal.ITIMER_REAL, 0)
@@ -495,14 +593,157 @@ def leaf_roundtrip(cls, text):
     return "ok", None
 
 
+# ------------------------------------------------------------------------------- negative control
+
+CONTROL_CASES = [
+    ("Actual_Arg_Spec_List", "a, b, c"),
+    ("Actual_Arg_Spec_List", "x, f(1, 2), k = 'p,q'"),
+    ("Section_Subscript_List", "1 : 2, j"),
+    ("Part_Ref", "a(1, 2)"),
+    ("Actual_Arg_Spec", "k = 1"),
+    ("Module_Stmt", "MODULE m"),
+]
+
+
+class _FlippedModel:
+    """a driver whose `combi` answers are wrong in one place: the text of the LAST child slot
+    gets an extra character"""
+
+    def __init__(self, mdl):
+        self.mdl = mdl
+
+    def ask(self, cmd, *fields):
+        f = self.mdl.ask(cmd, *fields)
+        if cmd == "combi" and f and f[0] == "split":
+            idx = [i for i, x in enumerate(f) if x == "C" and i + 2 < len(f)]
+            if idx:
+                f = list(f)
+                f[idx[-1] + 2] += "x"
+        return f
+
+
+def negative_control(mdl, rows, ctx, classes):
+    """Shows that the harness reports a disagreement when there is one.  On fixed cases:
+    (0) unmodified real code and driver: no disagreement;
+    (1) the REAL `SequenceBase.match` monkeypatched (in this process only) to drop the last
+        element of every list with more than one element: every multi-element list case must be
+        reported;
+    (2) one driver answer flipped (`_FlippedModel`): every case with a child slot must be reported.
+    -> (ok, text)"""
+    ParserFactory().create(std="f2003")
+    by_key = {r["key"]: r for r in rows}
+    cases = [(by_key[k], classes[k], t) for k, t in CONTROL_CASES
+             if k in by_key and by_key[k]["kind"] == "generic"]
+
+    def count(model, only=None):
+        chk = Checker(model, rows, ctx)
+        hit = 0
+        for r, cls, t in cases:
+            if only and r["spec"]["base"] != only:
+                continue
+            before = chk.stats["disagree"]
+            chk.check(r, cls, t)
+            hit += chk.stats["disagree"] > before
+        return hit, chk.stats["cases"]
+
+    clean, total = count(mdl)
+    orig = U.SequenceBase.__dict__["match"]
+    ofn = orig.__func__
+
+    def dropping(separator, subcls, string):
+        r = ofn(separator, subcls, string)
+        if r is not None and len(r[1]) > 1:
+            return r[0], r[1][:-1]
+        return r
+
+    U.SequenceBase.match = staticmethod(dropping)
+    try:
+        real_hit, real_total = count(mdl, only="seq")
+    finally:
+        U.SequenceBase.match = orig
+    flip_hit, flip_total = count(_FlippedModel(mdl))
+    ok = clean == 0 and real_total > 0 and real_hit == real_total and flip_hit == flip_total > 0
+    text = ("negative control: unmodified %d/%d disagreements; real SequenceBase.match dropping the "
+            "last element: %d/%d reported; one driver answer flipped: %d/%d reported  -> %s" % (
+                clean, total, real_hit, real_total, flip_hit, flip_total,
+                "harness detects disagreements" if ok else "CONTROL FAILED"))
+    return ok, text
+
+
 # ------------------------------------------------------------------------------- main
 
-def run(seed, n, exe=None, verbose=False, max_per_class=400):
+def build_samples(rng, rows, seed, n, deadline):
+    """{class name: sorted list of strings}; every set is sorted before it is iterated, so the
+    result depends on (seed, n, working trees) only - not on PYTHONHASHSEED"""
+    names = {r["name"] for r in rows}
+    tests = harvest_tests(names)
+    n_test = sum(len(v) for v in tests.values())
+    gsamples, parsed, skipped = harvest_generated(seed, n, deadline)
+    samples = {}
+    n_gen = 0
+    for k in sorted(set(tests) | set(gsamples)):
+        a, b = tests.get(k, set()), gsamples.get(k, set())
+        n_gen += len(b - a)
+        samples[k] = a | b
+    # layout variants and mutants of the generic classes' samples
+    nvar = 20 + n // 5
+    for r in rows:
+        if r["kind"] == "generic":
+            base = sorted(samples.get(r["name"], ()))
+            rng.shuffle(base)
+            extra = []
+            for t in base[:nvar]:
+                extra += variants(rng, t)
+                extra += mutants(rng, t)
+            samples.setdefault(r["name"], set()).update(x for x in extra if admissible(x))
+    # cross-feeding: samples of the other classes with the same base
+    by_base = collections.defaultdict(list)
+    for r in rows:
+        if r["kind"] == "generic":
+            by_base[r["spec"]["pybase"]].append(r["name"])
+    pool = {b: sorted(set().union(*[samples.get(nm, set()) for nm in sorted(set(nms))]))
+            for b, nms in sorted(by_base.items())}
+    for r in rows:
+        if r["kind"] == "generic":
+            pl = pool[r["spec"]["pybase"]]
+            if pl:
+                samples.setdefault(r["name"], set()).update(rng.sample(pl, min(25, len(pl))))
+    return {k: sorted(v) for k, v in sorted(samples.items())}, n_test, n_gen, parsed, skipped
+
+
+def select_classes(rng, rows, k):
+    """`--classes-per-base K`: K generic classes per base (deterministic choice) and 10*K of the
+    classes that only get the leaf oracle (hand-written / other bases); None = all"""
+    if not k:
+        return {r["key"] for r in rows}
+    groups = collections.defaultdict(list)
+    for r in rows:
+        if r["kind"] == "generic":
+            groups[r["spec"]["pybase"]].append(r["key"])
+        elif r["kind"] in ("hand", "other_base"):
+            groups["~" + r["kind"]].append(r["key"])
+    chosen = set()
+    for g in sorted(groups):
+        keys = sorted(groups[g])
+        rng.shuffle(keys)
+        chosen.update(keys[:(k if not g.startswith("~") else 10 * k)])
+    return chosen
+
+
+def run(seed, n, exe=None, verbose=False, max_per_class=None, max_seconds=None,
+        classes_per_base=None, case_seconds=None):
+    import time
+    t0 = time.time()
+    if max_seconds is None:
+        max_seconds = 25 + 0.5 * n
+    deadline = t0 + max_seconds
+    if max_per_class is None:
+        max_per_class = 40 + n
+    leaf_only_cap = 20 + n // 2
     rng = random.Random(seed)
     rows, regex_labels, ctx = extract_combi.extract()
     classes = dict(extract_combi.all_classes())
     by_key = {r["key"]: r for r in rows}
-    names = {r["name"] for r in rows}
 
     # is the compiled table the one of the live tree?
     gen_json = os.path.join(os.path.dirname(os.path.dirname(exe or fvmodel.EXE)), "..", "..",
@@ -514,35 +755,6 @@ def run(seed, n, exe=None, verbose=False, max_per_class=400):
     except (OSError, ValueError, KeyError):
         pass
 
-    samples = harvest_tests(names)
-    n_test = sum(len(v) for v in samples.values())
-    gsamples, parsed = harvest_generated(seed, n)
-    n_gen = 0
-    for k, v in gsamples.items():
-        new = v - samples[k]
-        n_gen += len(new)
-        samples[k] |= new
-    # layout variants of the generic classes' samples
-    for r in rows:
-        if r["kind"] == "generic":
-            base = sorted(samples.get(r["name"], ()))
-            rng.shuffle(base)
-            for s in base[:60]:
-                samples[r["name"]] |= set(variants(rng, s))
-                samples[r["name"]] |= set(mutants(rng, s))
-    # cross-feeding: samples of the other classes with the same base
-    by_base = collections.defaultdict(list)
-    for r in rows:
-        if r["kind"] == "generic":
-            by_base[r["spec"]["pybase"]].append(r["name"])
-    pool = {b: sorted(set().union(*[samples.get(nm, set()) for nm in nms]))
-            for b, nms in by_base.items()}
-    for r in rows:
-        if r["kind"] == "generic":
-            pl = pool[r["spec"]["pybase"]]
-            if pl:
-                samples[r["name"]] |= set(rng.sample(pl, min(25, len(pl))))
-
     mdl = fvmodel.Model(exe) if exe else fvmodel.get_model()
     try:
         mdl.ask("combi", "0", "x")
@@ -550,71 +762,106 @@ def run(seed, n, exe=None, verbose=False, max_per_class=400):
         print("the compiled driver has no `combi` command (%s): add `import FpDriver.Combi` and "
               "`FpDriver.Combi.handle` to lean/FpDriver.lean and rebuild" % e)
         return 1, {}, {}, None
+
+    print("combinator co-simulation  seed=%d n=%d  budget %.0f s" % (seed, n, max_seconds))
+    control_ok, control_text = negative_control(mdl, rows, ctx, classes)
+    print(control_text)
+
+    # at most 40 % of the budget for generating and parsing programs
+    samples, n_test, n_gen, parsed, skipped = build_samples(
+        rng, rows, seed, n, t0 + 0.4 * max_seconds)
+    t_harvest = time.time() - t0
+    chosen = select_classes(random.Random(seed + 1), rows, classes_per_base)
+
     chk = Checker(mdl, rows, ctx)
     leaf = collections.Counter()
     leaf_fail = collections.defaultdict(list)
     leaf_crash = collections.defaultdict(list)
+    timeouts = []
     shadowed = {r["name"] for r in rows if r["std"] == "f2008"}
+    planned = done = 0
+    stopped = False
+    limit = case_seconds or CASE_SECONDS
 
-    for std in ("f2008", "f2003"):
+    for std in ("f2003", "f2008"):
         ParserFactory().create(std=std)
+        work = []
         for r in rows:
             key = r["key"]
-            if std == "f2008" and r["std"] == "f2003" and r["name"] in shadowed:
+            if key not in chosen or r["kind"] not in ("generic", "hand", "other_base"):
                 continue
-            if std == "f2003" and not (r["std"] == "f2003" and r["name"] in shadowed):
+            old_shadowed = r["std"] == "f2003" and r["name"] in shadowed
+            if (std == "f2003") != old_shadowed:
                 continue
+            texts = samples.get(r["name"], [])
+            cap = max_per_class if r["kind"] == "generic" else leaf_only_cap
+            if len(texts) > cap:
+                texts = sorted(random.Random(seed * 7 + r["id"]).sample(texts, cap))
+            work += [(r, t) for t in texts]
+        # a deterministic shuffle: when the budget stops the run, what was done is a uniform
+        # subset of all classes, not the alphabetically first ones
+        random.Random(seed * 13 + len(work)).shuffle(work)
+        planned += len(work)
+        for r, t in work:
+            if time.time() > deadline:
+                stopped = True
+                break
+            done += 1
+            key = r["key"]
             cls = classes[key]
-            texts = sorted(samples.get(r["name"], ()))
-            if len(texts) > max_per_class:
-                rng2 = random.Random(seed * 7 + r["id"])
-                texts = sorted(rng2.sample(texts, max_per_class))
-            for t in texts:
-                try:
-                    from fparser.two.symbol_table import SYMBOL_TABLES
-                    SYMBOL_TABLES.clear()
-                except Exception:  # noqa: BLE001
-                    pass
-                try:
-                    with time_limit():
-                        if r["kind"] == "generic":
-                            chk.check(r, cls, t)
-                        how, msg = ("skip", None)
-                        if r["kind"] in ("generic", "hand", "other_base"):
-                            how, msg = leaf_roundtrip(cls, t)
-                except CaseTimeout:
-                    how, msg = "crash", "%s(%r) does not finish within %d s" % (
-                        cls.__name__, t, CASE_SECONDS)
-                if how != "skip":
-                    leaf[how] += 1
-                    if how == "fail":
-                        leaf_fail[key].append((len(t), t, msg))
-                    elif how == "crash":
-                        leaf_crash[key].append((len(t), t, msg))
-                    if verbose and how in ("fail", "crash"):
-                        print("  [%s] %s %s" % (how, key, msg), flush=True)
+            try:
+                from fparser.two.symbol_table import SYMBOL_TABLES
+                SYMBOL_TABLES.clear()
+            except Exception:  # noqa: BLE001
+                pass
+            how, msg = ("skip", None)
+            try:
+                with time_limit(limit):
+                    if r["kind"] == "generic":
+                        chk.check(r, cls, t)
+                    how, msg = leaf_roundtrip(cls, t)
+            except CaseTimeout:
+                # Base.__new__ may have been left wrapped by an interrupted Recorder
+                how, msg = "timeout", "%s(%r) does not finish within %.0f s" % (
+                    cls.__name__, t, limit)
+                timeouts.append((key, t))
+                print("  TIMEOUT (sample skipped) " + msg, flush=True)
+            finally:
+                if getattr(U.Base.__dict__["__new__"], "__name__", "") == "new":
+                    U.Base.__new__ = _ORIG_NEW
+            leaf[how] += 1
+            if how == "fail":
+                leaf_fail[key].append((len(t), t, msg))
+            elif how == "crash":
+                leaf_crash[key].append((len(t), t, msg))
+            if verbose and how in ("fail", "crash"):
+                print("  [%s] %s %s" % (how, key, msg), flush=True)
     ParserFactory().create(std="f2003")
 
     per, kinds = extract_combi.counts(rows)
-    print("combinator co-simulation  seed=%d n=%d" % (seed, n))
-    print("samples: %d strings from the repo tests, %d from %d generated programs (+ layout variants)"
-          % (n_test, n_gen, parsed))
+    print("samples: %d strings from the repo tests, %d from %d generated programs (%d skipped), "
+          "+ layout variants, mutants, cross-feeding;  limits: len<=%d depth<=%d groups<=%d"
+          % (n_test, n_gen, parsed, skipped, MAX_LEN, MAX_DEPTH, MAX_GROUPS))
     if stale:
         print("WARNING: Generated/combi.json differs from the live extraction (rebuild the model)")
+    if classes_per_base:
+        print("classes: %d per base (%d classes selected)" % (classes_per_base, len(chosen)))
     print("generic classes per base (cases run / accepted by the real match):")
     for b in extract_combi.BASES:
         print("  %-18s classes %3d   cases %6d   accepted %6d" % (
             b, per.get(b, 0), chk.per_base.get(b, 0), chk.per_base_accept.get(b, 0)))
     print("  total generic %d, hand-written %d, other generic bases %d" % (
         kinds.get("generic", 0), kinds.get("hand", 0), kinds.get("other_base", 0)))
-    covered = {r["key"] for r in rows if r["kind"] == "generic" and samples.get(r["name"])}
-    print("  generic classes with at least one sample: %d / %d" % (len(covered), kinds.get("generic", 0)))
+    covered = {r["key"] for r in rows if r["kind"] == "generic" and r["key"] in chosen
+               and samples.get(r["name"])}
+    print("  generic classes with at least one sample: %d / %d" % (
+        len(covered), len([r for r in rows if r["kind"] == "generic" and r["key"] in chosen])))
     print("model/real: cases %d  agree %d  DISAGREE %d  (tostr comparisons %d)" % (
         chk.stats["cases"], chk.stats["agree"], chk.stats["disagree"], chk.stats["tostr"]))
     for b in chk.bad:
         print("  DISAGREE " + b)
-    print("leaf round trip (all classes): accepted-and-stable %d  FAIL %d  crash %d  rejected %d" % (
-        leaf["ok"], leaf["fail"], leaf["crash"], leaf["reject"]))
+    print("leaf round trip (all classes): accepted-and-stable %d  FAIL %d  crash %d  rejected %d  "
+          "timeout %d" % (leaf["ok"], leaf["fail"], leaf["crash"], leaf["reject"], leaf["timeout"]))
     if leaf_fail:
         print("classes whose leaf round trip fails on an accepted input (shortest input):")
         for key in sorted(leaf_fail):
@@ -626,22 +873,33 @@ def run(seed, n, exe=None, verbose=False, max_per_class=400):
         for key in sorted(leaf_crash):
             fl = sorted(leaf_crash[key])
             print("  %-40s %d inputs   %s" % (key, len(fl), fl[0][2]))
-    return chk.stats["disagree"], leaf_fail, leaf_crash, chk
+    print("samples done %d of %d planned%s;  harvest %.1f s, total %.1f s" % (
+        done, planned, "  (BUDGET USED: sampling stopped, not a failure)" if stopped else "",
+        t_harvest, time.time() - t0))
+    bad = chk.stats["disagree"] + (0 if control_ok else 1)
+    return bad, leaf_fail, leaf_crash, chk
+
+
+_ORIG_NEW = U.Base.__dict__["__new__"]
 
 
 def main(argv=None):
-    ap = argparse.ArgumentParser()
+    ap = argparse.ArgumentParser(description=__doc__.split("\n\n")[0])
     ap.add_argument("--seed", type=int, default=0)
-    ap.add_argument("--n", type=int, default=300)
+    ap.add_argument("--n", type=int, default=300, help="generated programs to harvest samples from")
+    ap.add_argument("--max-seconds", type=float, default=None,
+                    help="wall-clock budget; sampling stops (no failure) when used; "
+                         "default 25 + 0.5*n")
+    ap.add_argument("--classes-per-base", type=int, default=None,
+                    help="quick tier: only K generic classes per base (and 10*K leaf-only classes)")
+    ap.add_argument("--case-seconds", type=float, default=None,
+                    help="per-sample limit (default %.0f s); a sample over it is logged and skipped"
+                         % CASE_SECONDS)
     ap.add_argument("--exe", default=os.environ.get("FV_MODEL_EXE"))
     ap.add_argument("-v", action="store_true")
     a = ap.parse_args(argv)
-    if argv is None and os.environ.get("PYTHONHASHSEED") != "0":
-        # the sample sets are built from Python sets of strings: pin the hash seed so that a run
-        # (and a failure) is reproducible
-        env = dict(os.environ, PYTHONHASHSEED="0")
-        os.execve(sys.executable, [sys.executable, "-m", "fv.cosim_combi"] + sys.argv[1:], env)
-    bad, _, _, _ = run(a.seed, a.n, exe=a.exe, verbose=a.v)
+    bad, _, _, _ = run(a.seed, a.n, exe=a.exe, verbose=a.v, max_seconds=a.max_seconds,
+                       classes_per_base=a.classes_per_base, case_seconds=a.case_seconds)
     return 1 if bad else 0
 
 
